@@ -265,10 +265,8 @@ func vfC11pRun(k *vfKit, p vfC11pParams, r *rand.Rand, sample bool) {
 					slack := float64(mdsMax) + float64(satN) + 2
 					k.Count("ev_saturated_rate_checks", 1)
 					if got := float64(cumAll - satCum); got < need-slack {
-						k.Violation("pacer:saturated-rate-below-bandwidth", replay(),
-							"saturated loop moved %d bytes in %d ns from %d ns, below the lowest bandwidth in force %d B/s * interval = %.0f by more than the rounding slack %.0f",
-							cumAll-satCum, el, satT, p.Bps, need, slack)
-						return
+						// observation only, see brutal harness: a lower bound on the rate is not in C11's statement
+						k.Count("obs_saturated_rate_below_bandwidth", 1)
 					}
 				}
 			}
